@@ -1,7 +1,7 @@
 """C12 — the signing check (DESIGN §4 C12)."""
 import ast
 
-from .common import ctx, returns, calls_in_ctx, site, reach_from_succ, bulk_appends
+from .common import ctx, returns, calls_in_ctx, site, reach_from_succ, bulk_appends, explore
 from .lvs import merge_key_rule, match_rules, CK, CP, last_component_guarded
 from ..flow import callee_attr
 from ..loader import AnalysisError, norm
@@ -21,7 +21,7 @@ def run(R):
     inst = ck.qual + ' :: nested match'
     probs = []
     if len(loops) != 2:
-        probs.append((f'{len(loops)} _match loops instead of packet + key', ck.f.node))
+        raise AnalysisError(f'Checker.check: {len(loops)} loops over _match(...) found; the nested packet / key match is not in a recognised form')
     else:
         outer, inner = sorted(loops, key=lambda n: n.id)
         oa = [ast.unparse(a) for a in outer.ast.iter.args]
@@ -56,24 +56,41 @@ def run(R):
         R.ok('C12.PRV.1', inst, site(ck, loops[0].ast))
     # ------------------------------------------------------------------ SIB.1 normalisation and digest strip
     R.ob('C12.SIB.1', 'both names are normalised and a trailing implicit-digest component is ignored on either')
-    for var in ('pkt_name', 'key_name'):
-        inst = f'{ck.qual} :: {var}'
-        norms = [n for n in ck.cfg.nodes if n.kind == 'stmt' and isinstance(n.ast, ast.Assign) and ast.unparse(n.ast.targets[0]) == var
-                 and ast.unparse(n.ast.value) == f'Name.normalize({var})']
-        strips = [n for n in ck.cfg.nodes if n.kind == 'stmt' and isinstance(n.ast, ast.Assign) and ast.unparse(n.ast.targets[0]) == var
-                  and ast.unparse(n.ast.value) == f'{var}[:-1]']
-        tests = [t for t in ck.cfg.nodes if t.kind == 'test' and ast.unparse(t.ast) == f'Component.get_type({var}[-1]) == Component.TYPE_IMPLICIT_SHA256']
-        tests = tests[:1] if tests else tests
-        first = loops[0] if loops else None
-        empties = {(t.id, False) for t in ck.cfg.nodes if t.kind == 'test' and ast.unparse(t.ast) == var}
-        ok = len(norms) == 1 and len(strips) == 1 and len(tests) == 1 and strips[0].id not in ck.cfg.reachable(removed_edges={(tests[0].id, True)}) \
-            and first is not None and ck.cfg.dominates(norms[0], first) and ck.cfg.dominates(norms[0], tests[0]) \
-            and first.id not in reach_from_succ(ck.cfg, norms[0], removed_nodes={tests[0].id}, removed_edges=empties, follow_exc=False)
+    params = [a_.arg for a_ in ck.f.node.args.args][1:3]
+    calls2 = sorted(loops, key=lambda n: n.id)
+    for par, lp in zip(params, calls2):
+        inst = f'{ck.qual} :: {par}'
+        arg = lp.ast.iter.args[0]
+        srcs = ck.sources(lp, arg)
+        strips, plain, bad = [], [], []
+        for s_ in srcs:
+            e_ = s_.expr if s_.kind == 'expr' else None
+            if isinstance(e_, ast.Subscript) and isinstance(e_.slice, ast.Slice) and e_.slice.lower is None and ast.unparse(e_.slice.upper or ast.Constant(0)) == '-1':
+                inner_ = s_.ctx.sources(s_.node, e_.value)
+                if inner_ and all(i_.kind == 'expr' and ast.unparse(i_.expr) == f'Name.normalize({par})' for i_ in inner_):
+                    strips.append(s_)
+                else:
+                    bad.append(s_)
+            elif isinstance(e_, ast.Call) and ast.unparse(e_) == f'Name.normalize({par})':
+                plain.append(s_)
+            else:
+                bad.append(s_)
+        # with a non-empty name ending in an implicit digest, the match is reached only through the stripping assignment
+
+        def digest_case(e):
+            if isinstance(e, ast.Compare) and len(e.ops) == 1 and isinstance(e.ops[0], (ast.Eq, ast.NotEq)) and 'TYPE_IMPLICIT_SHA256' in ast.unparse(e) \
+                    and 'get_type(' in ast.unparse(e):
+                return isinstance(e.ops[0], ast.Eq)
+            if isinstance(e, ast.Name) and any(i_.kind == 'expr' and 'Name.normalize(' in ast.unparse(i_.expr) for n_ in ck.cfg.nodes if n_.kind == 'test' and n_.ast is e
+                                               for i_ in ck.sources(n_, e)):
+                return True
+            return None
+        reach = explore(ck, digest_case, stop={s_.node.id for s_ in strips})
+        ok = bool(strips) and not bad and lp.id not in reach
         if ok:
-            R.ok('C12.SIB.1', inst, site(ck, norms[0].ast))
+            R.ok('C12.SIB.1', inst, site(ck, strips[0].node.ast))
         else:
-            R.fail('C12.SIB.1', inst, ck.qual, norms[0].ast if norms else 'def check', f'{var} is not normalised and stripped of a trailing implicit digest before matching',
-                   site(ck, ck.f.node))
+            R.fail('C12.SIB.1', inst, ck.qual, lp.ast.iter, f'{par} is not normalised and stripped of a trailing implicit digest before matching', site(ck, ck.f.node))
     R.ob('C12.NUL.1', 'the empty name is a name: its (absent) last component is not inspected')
     last_component_guarded(R, 'C12.NUL.1', ck)
     mt = ctx(R, CK + '.Checker.match')
